@@ -92,6 +92,9 @@ func (w *dworld) Ops() []seqx.Op {
 	if w.w.Clients[0].V.Signalled() && !w.w.Clients[0].V.Closed {
 		add("publisher-handles-one-batch")
 	}
+	if !core.Quick() && w.w.Clients[1].V.Signalled() && !w.w.Clients[1].V.Closed {
+		add("viewer-handles-one-batch")
+	}
 	add("publisher-leaves")
 	add("publisher-disconnects")
 	add("op-unpresents-publisher")
@@ -140,6 +143,12 @@ func (w *dworld) Apply(x seqx.Op) *core.Violation {
 			return &core.Violation{Signature: "C12/sender-closed-without-offence/signalling/delayed-delivery",
 				What: fmt.Sprintf("delayed delivery: the publisher sent only well-formed messages in states that allow them and was not kicked, yet handling its queued actions ended its loop with %q and closed its connection", obs.Err)}
 		}
+	case "viewer-handles-one-batch":
+		obs = w.w.Drain(1)
+		if obs.Err != "" {
+			return &core.Violation{Signature: "C12/bystander-closed/signalling/delayed-delivery",
+				What: fmt.Sprintf("delayed delivery: handling the actions queued for viewer c1 ended its loop with %q and closed its connection, although it sent nothing wrong", obs.Err)}
+		}
 	case "publisher-leaves":
 		obs = w.w.Send(0, sig.Msg{"type": "join", "kind": "leave", "group": "g"})
 	case "publisher-disconnects":
@@ -170,7 +179,9 @@ func (w *dworld) Apply(x seqx.Op) *core.Violation {
 	for n := 0; n < 200; n++ {
 		var s []int
 		for _, i := range w.w.Signalled() {
-			if i != 0 { // the publisher's loop is lazy (explicit transitions)
+			// the publisher's loop is lazy (explicit transitions); in the
+			// thorough tier the first viewer's as well
+			if i != 0 && (i != 1 || core.Quick()) {
 				s = append(s, i)
 			}
 		}
